@@ -600,3 +600,101 @@ Section Closed.
       unfold sval. rewrite E, E1. reflexivity.
   Qed.
 End Closed.
+
+(* ------------------------------------------------------------------------------------------ *)
+(* the instance of the correspondence check satisfies the hypotheses (non-vacuity) *)
+
+Lemma pair_eqb_spec a b : reflect (a = b) (pair_eqb a b).
+Proof.
+  destruct a as [a1 a2], b as [b1 b2]. unfold pair_eqb. cbn [fst snd].
+  destruct (str_eqb_spec a1 b1) as [->|Hne]; cbn [andb].
+  - destruct (str_eqb_spec a2 b2) as [->|Hne]; constructor; congruence.
+  - constructor; congruence.
+Qed.
+
+Lemma ckey_eqb_ok a b : ckey_eqb a b = true <-> a = b.
+Proof.
+  symmetry. apply reflect_iff. unfold ckey_eqb, val_eqb.
+  apply list_eqb_spec. apply list_eqb_spec. exact pair_eqb_spec.
+Qed.
+
+Lemma cH_inj (t : target) (a b : list val) : cH t a = cH t b -> a = b.
+Proof. intros E. exact E. Qed.
+
+Lemma trusted_empty key H act r : trusted key H act r (empty_store key).
+Proof. intros t k v _ Hs. discriminate. Qed.
+
+(* ------------------------------------------------------------------------------------------ *)
+(* the lock is needed: the same system without the flock has a schedule on which a process fails.
+   Two processes build b (which reads a).  Both start a; process 0 finishes a and starts b; then
+   process 1 replaces a's outputs while b's command of process 0 reads them. *)
+
+Definition ex_a : target := mkT (s "//p:a") (KConst (s "x")) [] [s "a.out"].
+Definition ex_b : target := mkT (s "//p:b") KConcat [SDep (s "//p:a")] [s "b.out"].
+Definition ex_repo : list target := [ex_a; ex_b].
+Definition ex_sched : list ev :=
+  [Begin 0 (s "//p:a"); Begin 1 (s "//p:a"); Move 0 (s "//p:a"); End 0 (s "//p:a");
+   Begin 0 (s "//p:b"); Move 1 (s "//p:a"); Move 0 (s "//p:b"); End 0 (s "//p:b");
+   End 1 (s "//p:a"); Begin 1 (s "//p:b"); Move 1 (s "//p:b"); End 1 (s "//p:b")].
+Definition ex_run (lock : bool) : cstate :=
+  run ckey ckey_eqb cH act_cmd lock ex_sched (cinit (empty_store ckey) [ex_repo; ex_repo]).
+
+Lemma unlocked_fails : finished ckey (ex_run false) = true /\ all_ok ckey (ex_run false) = false.
+Proof. vm_compute. split; reflexivity. Qed.
+
+(* with the lock the same list of events is harmless (Begin 1 a is blocked, process 1 catches up later) *)
+Lemma locked_same_schedule_ok : all_ok ckey (ex_run true) = true.
+Proof. vm_compute. reflexivity. Qed.
+
+(* ------------------------------------------------------------------------------------------ *)
+(* the property statement of Props/C31.v *)
+
+Lemma c31_full_proof :
+  forall (key : Type) (key_eqb : key -> key -> bool) (H : target -> list val -> key)
+         (act : target -> list val -> option val),
+    (forall a b, key_eqb a b = true <-> a = b) ->
+    (forall t a b, H t a = H t b -> a = b) ->
+  forall r : list target, wf_repo r = true ->
+  forall s0 : store key, trusted key H act r s0 ->
+  forall todos : list (list target), requests_ok act r todos ->
+  forall sched : list ev,
+    let st := run key key_eqb H act true sched (init key s0 todos) in
+    all_ok key st = true
+    /\ (finished key st = true -> forall ts t, In ts todos -> In t ts ->
+          sval key (st_store key st) (t_label t) = cleanv act r (t_label t))
+    /\ (forall l, (forall ts t, In ts todos -> In t ts -> t_label t <> l) -> st_store key st l = s0 l)
+    /\ (forall single sched1, requests_ok act r [single] ->
+          (forall l, In l (map t_label (concat todos)) <-> In l (map t_label single)) ->
+          let st1 := run key key_eqb H act true sched1 (init key s0 [single]) in
+          finished key st = true -> finished key st1 = true ->
+          all_ok key st1 = true /\ forall l, sval key (st_store key st) l = sval key (st_store key st1) l).
+Proof.
+  intros key key_eqb H act Hk Hinj r Hwf s0 Htr todos Hreq sched st.
+  destruct (c31_safety key key_eqb H act Hk Hinj r Hwf s0 Htr todos sched Hreq) as (Hok & Hcl & Hfr).
+  split; [exact Hok|]. split; [exact Hcl|]. split; [exact Hfr|].
+  intros single sched1 Hreq1 Hun st1 Hf Hf1.
+  destruct (c31_same_as_single key key_eqb H act Hk Hinj r Hwf s0 Htr todos single sched sched1 Hreq Hreq1 Hun Hf Hf1)
+    as (_ & Hok1 & Heq).
+  split; [exact Hok1|exact Heq].
+Qed.
+
+(* a locked schedule of the two-process example that runs to completion *)
+Definition ex_sched_locked : list ev :=
+  [Begin 0 (s "//p:a"); Begin 1 (s "//p:a"); Move 0 (s "//p:a"); End 0 (s "//p:a");
+   Begin 1 (s "//p:a"); Begin 1 (s "//p:b"); Begin 0 (s "//p:b"); Move 1 (s "//p:b"); End 1 (s "//p:b");
+   Begin 0 (s "//p:b")].
+Definition ex_done : cstate :=
+  run ckey ckey_eqb cH act_cmd true ex_sched_locked (cinit (empty_store ckey) [ex_repo; ex_repo]).
+
+Lemma ex_requests_ok : requests_ok act_cmd ex_repo [ex_repo; ex_repo].
+Proof.
+  intros ts t Hts Hin. assert (Hr : In t ex_repo) by (destruct Hts as [<-|[<-|[]]]; exact Hin).
+  split; [exact Hr|]. destruct Hr as [<-|[<-|[]]]; vm_compute; discriminate.
+Qed.
+
+Lemma ex_nonvacuous :
+  wf_repo ex_repo = true
+  /\ finished ckey ex_done = true /\ all_ok ckey ex_done = true
+  /\ sval ckey (st_store ckey ex_done) (s "//p:b") = Some [(s "b.out", s "x" ++ nl)]
+  /\ i_ran (st_inv ckey ex_done 0) = [s "//p:a"] /\ i_ran (st_inv ckey ex_done 1) = [s "//p:b"].
+Proof. vm_compute. repeat split; reflexivity. Qed.
